@@ -14,8 +14,8 @@ from ..runner import Acc
 ID = 'C19'
 LEVEL = 'model_checking'
 RULE = ('programs (facts, rules with cut / if-then-else / negation, atoms with embedded newlines and with a # after a '
-        'newline, atoms containing every other line separator (bare CR, CR LF, VT, FF, FS/GS/RS, NEL, LS, PS), non-ASCII atoms, atoms with NUL and other control characters, a 140 KiB source with two-byte characters at even and odd offsets, lists and anonymous variables, empty and comment-only files, a syntax error, a character outside the lexicon, 400 and 600 nested redundant parentheses (for 600 the command line must decide as the library does, for every flag combination), a '
-        'non-callable goal, a clause too large for Python, an unsupported term) x ALL 16 combinations of -d '
+        'newline, atoms containing every other line separator (bare CR, CR LF, VT, FF, FS/GS/RS, NEL, LS, PS), non-ASCII atoms, atoms with NUL and other control characters, a 140 KiB source with two-byte characters at even and odd offsets, lists and anonymous variables, empty and comment-only files, sources whose file names contain [ ] and ? next to files that these names would match as patterns, a syntax error, a character outside the lexicon, 400 and 600 nested redundant parentheses (for 600 the command line must decide as the library does, for every flag combination), a '
+        'non-callable goal, a clause too large for Python, an unsupported term) x ALL 16 combinations (for the programs that probe one input shape: 4 combinations) of -d '
         '--debug-parser --debug-generator --debug-filename x {stdout, -o file that already exists with longer content} x {file argument, - with the text on '
         'standard input, the path /dev/stdin fed from a pipe (a source that is not a regular file)} x {one source, two sources, a second source that does not compile, a first source that does not compile followed by this one, a first source that stops in the middle of a clause followed by this one}, each run as a real '
         'subprocess of `python -m yldprolog.compiler`. Checked: with the debug options off the output equals the '
@@ -52,10 +52,12 @@ PROGRAMS = [
     # redundant parentheses: deep for the parser and the visitor, flat for the generated code
     ('deep-parentheses', 'p(%sa%s).\n' % ('(' * 400, ')' * 400), 'ok'),
     ('very-deep-parentheses', 'p(%sa%s).\n' % ('(' * 600, ')' * 600), 'as-library'),
+    # file names with characters that mean something to a shell or to glob(): the name is a name
+    ('report[12]', 'bracketed(name).\n', 'ok'), ('report1', 'sibling(one).\n', 'ok'), ('what?', 'question(mark).\n', 'ok'), ('whatx', 'sibling(x).\n', 'ok'),
     ('open-ended', 'wet(X) :- rain(X),\n', 'syntax'),
     ('multiline-clause', "longer(\n  'first\nsecond',\n  X\n) :-\n  true,\n  X = 'x'.\n", 'ok'),
 ]
-QUICK = ['facts', 'newlines', 'unicode', 'syntax-error', 'control', 'linebreaks', 'too-large', 'directives-discontiguous', 'control-characters', 'large-non-ascii', 'lexical-error', 'deep-parentheses', 'very-deep-parentheses']
+QUICK = ['facts', 'newlines', 'unicode', 'syntax-error', 'control', 'linebreaks', 'too-large', 'directives-discontiguous', 'control-characters', 'large-non-ascii', 'lexical-error', 'deep-parentheses', 'very-deep-parentheses', 'report[12]', 'what?']
 FLAGS = ['-d', '--debug-parser', '--debug-generator', '--debug-filename']
 
 
@@ -89,6 +91,13 @@ def lib_output(path):
         return None, e
 
 
+# the six general programs run under the full cross product of configurations; the programs that probe one
+# particular input shape run under 4 flag sets (none, all, parser only, generator + filename) alone and
+# followed by a second source
+FULL_CROSS_PRODUCT = ('facts', 'newlines', 'unicode', 'syntax-error', 'control', 'linebreaks')
+REDUCED_FLAGS = ((False,) * 4, (True,) * 4, (False, True, False, False), (False, False, True, True))
+
+
 def configurations(progs):
     names = [p[0] for p in progs]
     for name in names:
@@ -101,8 +110,13 @@ def configurations(progs):
                         continue
                     if name == 'large-non-ascii' and flags not in ((False,) * 4, (False, False, True, True)):
                         continue    # (the parser trace of a big file is big: only flag sets without it)
+                    reduced = name not in FULL_CROSS_PRODUCT
+                    if reduced and flags not in REDUCED_FLAGS:
+                        continue
                     for multi in ('one', 'two', 'second-fails', 'first-fails', 'first-open-ended'):
                         if multi == 'first-open-ended' and inp != 'file':
+                            continue
+                        if reduced and multi not in ('one', 'two'):
                             continue
                         yield name, flags, out, inp, multi
 
